@@ -15,6 +15,7 @@ import (
 	"hash/fnv"
 	"io"
 	"math/rand/v2"
+	"os"
 	"reflect"
 	"runtime"
 	"strings"
@@ -218,6 +219,7 @@ type c20Obs struct {
 	From   int      `json:"from"`
 	W      []string `json:"w"`
 	Wst    string   `json:"wst,omitempty"`
+	Left   int      `json:"left,omitempty"` // br: bytes of input still buffered in the reader right after this Reset
 	OutLen int      `json:"out_len,omitempty"`
 	OutSum string   `json:"out_sum,omitempty"`
 	Note   string   `json:"note,omitempty"`
@@ -297,6 +299,25 @@ func c20Wst(enc string, d connect.Decompressor) string {
 	return "?"
 }
 
+// input that the brotli reader under the wrapper still has buffered (brotli.Reader.in), by reflection;
+// -1 if the wrapper no longer looks like that.  Right after a Reset anything > 0 is input of an
+// EARLIER stream that will be decoded ahead of the new source.
+func c20BrotliLeft(d connect.Decompressor) int {
+	v := reflect.ValueOf(d)
+	if v.Kind() != reflect.Pointer || v.IsNil() || v.Elem().Kind() != reflect.Struct {
+		return -1
+	}
+	f := v.Elem().FieldByName("reader")
+	if !f.IsValid() || f.Kind() != reflect.Pointer || f.IsNil() || f.Elem().Kind() != reflect.Struct {
+		return -1
+	}
+	in := f.Elem().FieldByName("in")
+	if !in.IsValid() || in.Kind() != reflect.Slice {
+		return -1
+	}
+	return in.Len()
+}
+
 type c20ReadCloser struct {
 	io.Reader
 	closed *int32
@@ -341,8 +362,66 @@ func c20Garbage(r *rand.Rand, valid []byte) []byte {
 	}
 }
 
+// what a zstd frame header announces (window or content size, whichever is larger): klauspost's
+// decoder allocates that much before it looks at the first block, so a 13-byte message can cost
+// gigabytes.  The bulk replay avoids such headers (TestVerifC20Hazard measures one as a note).
+func c20ZstdAnnounces(b []byte) uint64 {
+	if len(b) < 5 || b[0] != 0x28 || b[1] != 0xB5 || b[2] != 0x2F || b[3] != 0xFD {
+		return 0
+	}
+	fhd := b[4]
+	single := fhd&0x20 != 0
+	pos := 5
+	var window uint64
+	if !single {
+		if len(b) <= pos {
+			return 0
+		}
+		exp, mant := uint64(b[pos]>>3), uint64(b[pos]&7)
+		base := uint64(1) << (10 + exp)
+		window = base + base/8*mant
+		pos++
+	}
+	pos += []int{0, 1, 2, 4}[fhd&3]
+	n := []int{0, 2, 4, 8}[fhd>>6]
+	if n == 0 && single {
+		n = 1
+	}
+	if len(b) < pos+n {
+		return window
+	}
+	var fcs uint64
+	for i := n - 1; i >= 0; i-- {
+		fcs = fcs<<8 | uint64(b[pos+i])
+	}
+	if n == 2 {
+		fcs += 256
+	}
+	return max(window, fcs)
+}
+
+const c20MaxAnnounced = 32 << 20
+
 // bytes of the stream a Reset is pointed at
 func c20StreamBytes(enc string, op c20Op, ps *c20Payloads, conc *c20Conc, r *rand.Rand) []byte {
+	b := c20StreamBytes1(enc, op, ps, conc, r)
+	if enc != "zstd" && op.K != "foreign" {
+		return b
+	}
+	for try := 0; try < 50 && c20ZstdAnnounces(b) > c20MaxAnnounced && op.K != "valid"; try++ {
+		c2 := *conc
+		if c2.CutAt >= 0 {
+			c2.CutAt++
+		}
+		if c2.FlipBit >= 0 {
+			c2.FlipBit += 1 + try
+		}
+		b = c20StreamBytes1(enc, op, ps, &c2, r)
+	}
+	return b
+}
+
+func c20StreamBytes1(enc string, op c20Op, ps *c20Payloads, conc *c20Conc, r *rand.Rand) []byte {
 	switch op.K {
 	case "valid":
 		return ps.valid[enc][op.P]
@@ -419,13 +498,31 @@ func c20ObsOK(obl c20Obl, ob c20Obs) bool {
 func c20Call(f func() error) (ret string, errText string) {
 	defer func() {
 		if r := recover(); r != nil {
-			ret, errText = "panic", fmt.Sprint(r)
+			ret, errText = "panic", fmt.Sprint(r)+" @"+c20Where()
 		}
 	}()
 	if err := f(); err != nil {
 		return "err", err.Error()
 	}
 	return "ok", ""
+}
+
+// the innermost frames of a panic that are not the Go runtime (called from the deferred recover)
+func c20Where() string {
+	pc := make([]uintptr, 32)
+	n := runtime.Callers(3, pc)
+	frames := runtime.CallersFrames(pc[:n])
+	var res []string
+	for {
+		f, more := frames.Next()
+		if !strings.HasPrefix(f.Function, "runtime.") && f.Function != "" {
+			res = append(res, fmt.Sprintf(" %s:%d", f.Function[strings.LastIndex(f.Function, "/")+1:], f.Line))
+		}
+		if !more || len(res) >= 4 {
+			break
+		}
+	}
+	return strings.Join(res, " <-")
 }
 
 // one decompressor history on one real instance; discipline applied dynamically: calls after a
@@ -462,6 +559,9 @@ func c20RunD(enc string, ops []c20Op, ps *c20Payloads, conc *c20Conc) (obs []c20
 			ob.Ret, ob.Err = c20Call(func() error { return d.Reset(src) })
 			resetFailed = ob.Ret != "ok"
 			from = 0
+			if enc == "br" {
+				ob.Left = max(0, c20BrotliLeft(d))
+			}
 		case "Read1", "ReadAll":
 			var out []byte
 			all := op.O == "ReadAll"
@@ -710,15 +810,30 @@ func c20Cause(enc string, s *c20Scn, at int, obs []c20Obs, pipeClosed bool) stri
 			}
 		}
 	}
+	if s.Side == "D" && enc == "br" && at < len(obs) && c20IsBrotliOverrun(obs[at]) {
+		return "brotli-bytewise-source-internal-buffer-overrun"
+	}
 	if s.Side == "D" && enc == "br" {
-		// brotli.Reader.Reset keeps unconsumed input: an earlier stream had bytes after its end
-		for i := 0; i < at && i < len(s.Ops) && i < len(obs); i++ {
-			if s.Ops[i].O == "Reset" && s.Ops[i].K == "trail" || strings.Contains(obs[i].Err, "excessive input") {
-				return "brotli-leftover-input-after-trailing-bytes"
+		// the mechanism itself is observed: right after the Reset that bound the stream being read,
+		// the brotli reader still held input of an earlier stream (brotli.Reader.Reset keeps it)
+		for i := min(at, len(obs)-1); i >= 0; i-- {
+			if s.Ops[i].O == "Reset" {
+				if obs[i].Left > 0 {
+					return "brotli-reset-keeps-buffered-input"
+				}
+				break
 			}
 		}
 	}
 	return ""
+}
+
+// andybalholm/brotli v1.1.1: decoderDecompressStream copies input byte by byte into an 8-byte
+// internal buffer without a bound when a source hands out one byte per Read and bytes follow the
+// end of the stream
+func c20IsBrotliOverrun(o c20Obs) bool {
+	return o.Ret == "panic" && strings.Contains(o.Err, "index out of range [8] with length 8") &&
+		strings.Contains(o.Err, "brotli.decoderDecompressStream")
 }
 
 func TestVerifC20Replay(t *testing.T) {
@@ -909,6 +1024,58 @@ func TestVerifC20Hazard(t *testing.T) {
 			out.Put(map[string]any{"enc": enc, "reset_garbage": r1, "then": after, "ret": r2, "err": e2})
 		}
 	}
+	// brotli, valid stream of a 1 MiB payload + 8 bytes, delivered one byte per Read (never done by the
+	// repository's own call sites, which pass in-memory buffers)
+	{
+		payload := c20Bytes(80, 1<<20, true)
+		c, err := GetCompressor(c20Enum["br"])
+		if err != nil {
+			t.Fatal(err)
+		}
+		var b bytes.Buffer
+		c.Reset(&b)
+		_, _ = c.Write(payload)
+		_ = c.Close()
+		stream := append(append([]byte(nil), b.Bytes()...), 0xb1, 0x45, 0x23, 0xf7, 0x5c, 0x2a, 0x76, 0x8f)
+		for _, kind := range []string{"buffer", "bytewise"} {
+			d, err := GetDecompressor(c20Enum["br"])
+			if err != nil {
+				t.Fatal(err)
+			}
+			var src io.Reader = bytes.NewBuffer(append([]byte(nil), stream...))
+			if kind == "bytewise" {
+				src = iotest.OneByteReader(bytes.NewReader(stream))
+			}
+			r1, e1 := c20Call(func() error {
+				if err := d.Reset(src); err != nil {
+					return err
+				}
+				_, err := io.Copy(io.Discard, d)
+				return err
+			})
+			out.Put(map[string]any{"enc": "br", "then": "trailing8-" + kind, "ret": r1, "err": e1, "stream_bytes": len(stream),
+				"overrun": c20IsBrotliOverrun(c20Obs{Ret: r1, Err: e1})})
+		}
+	}
+	// memory announced by a 13-byte zstd message (window 512 MiB, content size 400 MiB, one empty block)
+	msg := []byte{0x28, 0xB5, 0x2F, 0xFD, 0x80, 0x98, 0x00, 0x00, 0x00, 0x19, 0x01, 0x00, 0x00}
+	d, err := GetDecompressor(c20Enum["zstd"])
+	if err != nil {
+		t.Fatal(err)
+	}
+	var m0, m1 runtime.MemStats
+	runtime.ReadMemStats(&m0)
+	r1, e1 := c20Call(func() error {
+		if err := d.Reset(bytes.NewBuffer(msg)); err != nil {
+			return err
+		}
+		_, err := io.Copy(io.Discard, d)
+		return err
+	})
+	runtime.ReadMemStats(&m1)
+	_ = d.Close()
+	out.Put(map[string]any{"enc": "zstd", "then": "alloc", "ret": r1, "err": e1, "message_bytes": len(msg),
+		"allocated_mib": (m1.TotalAlloc - m0.TotalAlloc) >> 20})
 }
 
 // ---------------------------------------------------------------- code -> spec
@@ -930,6 +1097,7 @@ type c20Rob struct {
 	W    []string `json:"w"`
 	Wst  string   `json:"wst"`
 	Err  string   `json:"err"`
+	Left int      `json:"left"`
 }
 
 // TestVerifC20Record: long seeded histories (beyond the TLC domain: up to 40 calls, 1 MiB payloads,
@@ -999,9 +1167,16 @@ func TestVerifC20Record(t *testing.T) {
 				switch op.O {
 				case "Reset":
 					data := c20StreamBytes(enc, op, ps, &conc, rr)
+					if dir := verifutil.Env("VERIF_DUMP_DIR", ""); dir != "" && len(only) > 0 {
+						// for debugging a single recorded history: the bytes each Reset was pointed at
+						_ = os.WriteFile(fmt.Sprintf("%s/c20-%d-%02d-%s-src%d.bin", dir, i, j, op.K, (conc.SrcPattern+j)%4), data, 0o644)
+					}
 					ob.Ret, ob.Err = c20Call(func() error { return d.Reset(c20Source(conc.SrcPattern+j, data, &srcClosed)) })
 					resetFailed = ob.Ret != "ok"
 					from = 0
+					if enc == "br" {
+						ob.Left = max(0, c20BrotliLeft(d))
+					}
 				case "Read1", "ReadAll":
 					all := op.O == "ReadAll"
 					var outb []byte
